@@ -33,6 +33,9 @@ var c06LimitPool = []uint32{0, 1, 5, 16, 17, 64, 100, 300, 1000, 3072, 4096, 500
 
 func c06Universe(r *core.Rand, limits []uint32) []inputs.Input {
 	u := pickUniverse(r, r.Range(2, 4))
+	if r.Chance(1, 2) {
+		u = append(u, inputs.Input{Fam: "corpus", V: r.Intn(1 << 12)})
+	}
 	// limit-sensitive members: a NUL just beyond / before the candidate limits
 	for i, n := 0, r.Range(1, 3); i < n; i++ {
 		l := int(limits[r.Intn(len(limits))])
